@@ -953,8 +953,9 @@ func refuseListFilter(refuseList *refuse_list.RefuseList) func(crypto.PubKey) er
 }
 
 func authByCA(conf *viper.Viper, ppValidators **types.ValidatorSet) func(*p2p.NodeInfo) error {
-	valset := *ppValidators
 	return func(peerNodeInfo *p2p.NodeInfo) error {
+		// the authorities are the validators in force when the peer connects
+		valset := *ppValidators
 		// validator node must be signed by CA
 		// but normal node can bypass auth check if config says so
 		if valset.HasAddress(peerNodeInfo.PubKey.Address()) && !conf.GetBool("non_validator_node_auth") {
